@@ -1070,7 +1070,7 @@ def run(ctx):
                        "for %s, through LanguageContextBuilder overrides and, for %d runs, `python -m nunavut`; "
                        "code->spec: %d seeded random universes (1-3 roots, nesting <=4, 3-8 types, payloads over %d tokens incl. unicode, "
                        "character references, comment/CDATA/raw-text openers); one trace per page, one TLC state per token event; "
-                       "distinct = (origin, page kind, universe+page hash)"
+                       "distinct = (origin, configuration class, page kind, universe+page hash)"
                        % (ctx.pick("", ", chains of three types"),
                           ctx.pick("quick: every (namespaces, kinds) combination with one of the three array kinds, rotating", "all shapes"),
                           ctx.pick("one shape per ordered pair of namespaces and configuration (kinds rotating)", "all shapes"),
